@@ -118,6 +118,20 @@ func main() {
 		workerMain(os.Args[2:])
 	case "exec":
 		execMain(os.Args[2:])
+	case "opscheck":
+		// every operation kind must have an implementation (an unimplemented one exits with status 2 in execOp)
+		for k := 0; k < nOpKinds; k++ {
+			if isSilentOp(k) || k == OpEngine {
+				continue
+			}
+			op := Op{Kind: k, In: lit("ab ab"), In2: lit("ab"), Repl: "<$0>", N: -1, TimeoutNs: -1}
+			v := pristine(ReSpec{Pat: `(a)(b)?`}, &op, 1_000_000)
+			if v.res == "" || v.capped {
+				fmt.Printf("opscheck: kind %d (%s): empty or capped result %q\n", k, opNames[k], v.res)
+				os.Exit(2)
+			}
+		}
+		fmt.Printf("opscheck: %d operation kinds implemented\n", nOpKinds)
 	case "roundtrip":
 		// every generated scenario must execute identically from its run file (JSON round trip)
 		fs := flag.NewFlagSet("roundtrip", flag.ExitOnError)
